@@ -3,6 +3,8 @@ package checks
 import (
 	"crypto/sha256"
 	"fmt"
+	"math/rand"
+	"path/filepath"
 	"strings"
 
 	"verif/engine/gosym"
@@ -238,8 +240,100 @@ func c09Shapes() []Shape {
 	return sh
 }
 
+// genModuleShape builds a random acyclic import graph of 2..4 files (deterministic in seed): every file has globals,
+// a private helper, public functions that use its globals and call the public functions of the files it imports, and
+// top-level code; some files live in a sub-directory; hash-prefix classes are chosen per file.
+func genModuleShape(seed int64) Shape {
+	rng := rand.New(rand.NewSource(seed))
+	n := 2 + rng.Intn(3) // number of imported files
+	type modInfo struct {
+		path    string
+		imports []int
+		class   string
+	}
+	mods := make([]modInfo, n)
+	for i := range mods {
+		dir := ""
+		if rng.Intn(3) == 0 {
+			dir = []string{"lib/", "pkg/sub/"}[rng.Intn(2)]
+		}
+		mods[i].path = fmt.Sprintf("%sm%d.tsh", dir, i)
+		mods[i].class = []string{"letter", "digit"}[rng.Intn(2)]
+		for j := i + 1; j < n; j++ {
+			if rng.Intn(2) == 0 {
+				mods[i].imports = append(mods[i].imports, j)
+			}
+		}
+	}
+	rel := func(from, to string) string {
+		r, err := filepath.Rel(filepath.Dir(from), to)
+		if err != nil {
+			return to
+		}
+		return filepath.ToSlash(r)
+	}
+	build := func() (*Program, map[string]*Program) {
+		rng := rand.New(rand.NewSource(seed*7 + 1))
+		progs := map[string]*Program{}
+		for i := n - 1; i >= 0; i-- {
+			m := mods[i]
+			g := fmt.Sprintf("g%d", i)
+			body := []Stmt{hashMarker(m.class, i), Def(g, N(int64(10*(i+1)))), Def(fmt.Sprintf("Tag%d", i), S(fmt.Sprintf("t%d", i)))}
+			body = append(body, Fn(fmt.Sprintf("h%d", i), []ParamDecl{Pm("a", TInt)}, []Type{TInt}, Ret(Op("+", V("a"), V(g)))))
+			// public function: updates the global, calls imported publics
+			var sum Expr = Call(fmt.Sprintf("h%d", i), V("a"))
+			for _, j := range m.imports {
+				if rng.Intn(3) > 0 {
+					sum = Op("+", sum, ACall(fmt.Sprintf("x%d", j), fmt.Sprintf("F%d", j), Op("+", V("a"), N(int64(j)))))
+				}
+			}
+			body = append(body, Fn(fmt.Sprintf("F%d", i), []ParamDecl{Pm("a", TInt)}, []Type{TInt}, Set(g, Op("+", V(g), N(1))), Ret(sum)))
+			body = append(body, Fn(fmt.Sprintf("Unused%d", i), nil, []Type{TInt}, Ret(Call(fmt.Sprintf("h%d", i), N(0)))))
+			// top-level code of the file
+			if rng.Intn(2) == 0 {
+				body = append(body, Pr(S(fmt.Sprintf("init %d", i)), V(g)))
+			}
+			if rng.Intn(2) == 0 {
+				body = append(body, IfS(Op(">", V(g), N(0)), Set(g, Op("+", V(g), Call(fmt.Sprintf("h%d", i), N(1)))), Pr(S("block"), V(g))))
+			}
+			if len(m.imports) > 0 && rng.Intn(2) == 0 {
+				j := m.imports[rng.Intn(len(m.imports))]
+				body = append(body, Def(fmt.Sprintf("first%d", i), ACall(fmt.Sprintf("x%d", j), fmt.Sprintf("F%d", j), N(2))), Pr(S("first"), V(fmt.Sprintf("first%d", i))))
+			}
+			p := Prog(body...)
+			for _, j := range m.imports {
+				p.Imports = append(p.Imports, Import{fmt.Sprintf("x%d", j), rel(m.path, mods[j].path)})
+			}
+			progs[m.path] = p
+		}
+		var mainBody []Stmt
+		main := Prog()
+		for i := 0; i < n; i++ {
+			if i == 0 || rng.Intn(2) == 0 {
+				main.Imports = append(main.Imports, Import{fmt.Sprintf("x%d", i), mods[i].path})
+				mainBody = append(mainBody, Pr(ACall(fmt.Sprintf("x%d", i), fmt.Sprintf("F%d", i), L(0))), Pr(ACall(fmt.Sprintf("x%d", i), fmt.Sprintf("F%d", i), N(int64(i)))))
+			}
+		}
+		main.Body = append(mainBody, Pr(S("end")))
+		return main, progs
+	}
+	return Shape{Name: "generated-import-graph", ExpectReject: false,
+		Prog: func(c *gosym.Ctx) *Program { p, _ := build(); return p },
+		Mods: func(c *gosym.Ctx) map[string]*Program { _, m := build(); return m },
+		Init: func(c *gosym.Ctx) { c.FS.HashOverride = hashOverride },
+	}
+}
+
 func CheckC09(r *Run) int {
-	return checkShapes(r, c09Shapes(), eqOpts{Target: "bash", CheckHazards: true}, 3000,
-		"import graphs: single, two files with top-level code, diamond, chain, repeated alias, std + local, equal names, imported globals; every imported file once with a hash prefix starting with a letter and once with a digit (sha256 stubbed per class; counterexamples are replayed with a comment nonce that gives the real hash the same class); illegal uses (private, undefined, unknown alias, transitive) must be rejected",
+	shapes := c09Shapes()
+	ngen := 20
+	if r.Tier != "quick" {
+		ngen = 600
+	}
+	for i := 0; i < ngen; i++ {
+		shapes = append(shapes, genModuleShape(r.Seed*1000+int64(i)))
+	}
+	return checkShapes(r, shapes, eqOpts{Target: "bash", CheckHazards: true}, 3000,
+		"import graphs: single, two files with top-level code, diamonds, chain, repeated alias, std + local, equal names, imported globals, files in several directories, plus 20 (quick) / 600 (thorough) generated acyclic graphs of 2..4 files with globals, private helpers, cross-file calls and top-level code; every imported file once with a hash prefix starting with a letter and once with a digit (sha256 stubbed per class; counterexamples are replayed with a comment nonce that gives the real hash the same class); illegal uses (private, undefined, unknown alias, transitive) must be rejected",
 		"the reference composes modules: a file's top-level code runs once when first imported, its functions see its own globals; integer arguments in the main file are symbolic")
 }
